@@ -263,8 +263,52 @@ def probes_of(out):
     return re.findall(r">(\[P\d+:[^<]*\])<", out.decode("utf-8", "replace"))
 
 
+def gen_var_fwd(rng):
+    """family var-fwd: one <var> with several attributes, one of which holds a forward element reference (so the whole <var>
+    is deferred), the others updating variables from their own previous values (swap, increment, append). The probes
+    are themselves positioned against the later element, so they are evaluated after the <var> in both twins: they must read
+    the result of ONE simultaneous assignment."""
+    a, b, c = rng.choice(["A1", "k9", "zz"]), rng.choice(["B2", "q", "X7x"]), rng.randint(0, 20)
+    env = dict(a=a, b=b, c=str(c))
+    n_var = rng.choice([1, 1, 2])
+    lines_mid = []
+    k = 0
+    for _ in range(n_var):
+        upd = {}
+        kinds = rng.sample(["swap", "inc", "cat", "copy"], rng.choice([1, 2, 2, 3]))
+        new = dict(env)
+        for kd in kinds:
+            if kd == "swap" and "a" not in upd and "b" not in upd:
+                upd["a"], upd["b"] = "$b", "$a"
+                new["a"], new["b"] = env["b"], env["a"]
+            elif kd == "inc" and "c" not in upd:
+                upd["c"] = "{{$c + 1}}"
+                new["c"] = str(int(env["c"]) + 1)
+            elif kd == "cat" and "a" not in upd:
+                upd["a"] = "${a}x"
+                new["a"] = env["a"] + "x"
+            elif kd == "copy" and "b" not in upd:
+                upd["b"] = "$a"
+                new["b"] = env["a"]
+        items = list(upd.items())
+        rng.shuffle(items)
+        items.insert(rng.randint(0, len(items)), ("w%d" % k, "{{#later~w + %d}}" % k))
+        lines_mid.append("  <var %s/>" % " ".join('%s="%s"' % kv for kv in items))
+        env = new
+        k += 1
+        lines_mid.append('  <text xy="#later|h %d" text="[P%d:$a|$b|$c|$i|$q]"/>' % (k, k))
+    later = '  <rect id="later" xy="3 4" wh="2"/>'
+    head = '  <var a="%s" b="%s" c="%d"/>' % (a, b, c)
+    def doc(later_first):
+        return "\n".join(["<svg>", head] + ([later] if later_first else []) + lines_mid + ([] if later_first else [later]) + ["</svg>"])
+    return doc(False), doc(True)
+
+
 def gen_case(rng):
-    family = rng.choice(["general-fwd", "general-fwd", "benign-fwd", "benign-fwd", "benign-fwd", "no-fwd"])
+    family = rng.choice(["general-fwd", "general-fwd", "benign-fwd", "benign-fwd", "benign-fwd", "no-fwd", "var-fwd"])
+    if family == "var-fwd":
+        f, b = gen_var_fwd(rng)
+        return dict(fwd=f.encode(), bwd=b.encode(), expected=None, shadow=True, uses_fwd=True, family=family)
     for _ in range(2000):
         p = Prog(rng, fwd=(family == "general-fwd"))
         block = p.block(0, rng.randint(3, 8))
@@ -357,7 +401,10 @@ def check_case(ctx, case):
                 acc.violation("rejected", "rejected:%s/%s" % (r.kind, which), dict(case, which=which), observed=core.trunc(r.err, 300), expected="Ok")
             return
         res[which] = probes_of(r.out)
-    d = first_diff(exp, res["bwd"])
+    d = first_diff(exp, res["bwd"]) if exp is not None else None      # var-fwd: the twin without forward references is the reference
+    if exp is None and not res["bwd"]:
+        acc.inconc("var-fwd-no-probes")
+        return
     if d:
         text = case["bwd"].decode()
         acc.violation("probe-value", "lexical:%s" % classify(text, d[1] or d[2]).split("/")[0], dict(case, which="bwd"),
@@ -395,4 +442,4 @@ def run_shard(ctx):
         case = gen_case(rng)
         check_case(ctx, case)
         if j < 2:
-            acc.sample(dict(program=case["fwd"].decode(), expected_probes=case["expected"][:6]))
+            acc.sample(dict(program=case["fwd"].decode(), expected_probes=(case["expected"] or [])[:6]))
